@@ -572,6 +572,11 @@ def _lambdify_mv(mv):
     return CodegenOutput(tuple(mv.keys()), func)
 
 
+def _identifier(name: str) -> str:
+    """ A valid python identifier for the generated function, also for e.g. a lambda whose name is '<lambda>'. """
+    return name if name.isidentifier() else ''.join(c if c.isalnum() else '_' for c in f'f{name}')
+
+
 def do_codegen(codegen, *mvs) -> CodegenOutput:
     """
     :param codegen: callable that performs codegen for the given :code:`mvs`. This can be any callable
@@ -595,7 +600,7 @@ def do_codegen(codegen, *mvs) -> CodegenOutput:
         dependencies = res.dependencies
         res = res.expr_dict
     else:
-        funcname = f'{codegen.__name__}_' + '_x_'.join(f"{mv.type_number}" for mv in mvs)
+        funcname = f'{_identifier(codegen.__name__)}_' + '_x_'.join(f"{mv.type_number}" for mv in mvs)
         args = {arg_name: arg.values() for arg_name, arg in zip(string.ascii_uppercase, mvs)}
         dependencies = None
 
@@ -618,7 +623,7 @@ def do_compile(codegen, *tapes):
     namespace = algebra.numspace
 
     res = codegen(*tapes)
-    funcname = f'{codegen.__name__}_' + '_x_'.join(f"{tape.type_number}" for tape in tapes)
+    funcname = f'{_identifier(codegen.__name__)}_' + '_x_'.join(f"{tape.type_number}" for tape in tapes)
     funcstr = f"def {funcname}({', '.join(t.expr for t in tapes)}):"
     if not isinstance(res, str):
         funcstr += f"    return {res.expr}"
